@@ -12,83 +12,6 @@
 using namespace vf;
 using namespace vg;
 
-struct Digest {
-  uint64_t a = 1469598103934665603ull, b = 0x9e3779b97f4a7c15ull;
-  void bytes(const void *p, size_t n) {
-    const uint8_t *c = static_cast<const uint8_t *>(p);
-    for (size_t i = 0; i < n; ++i) {
-      a = (a ^ c[i]) * 1099511628211ull;
-      b = (b + c[i] + 1) * 0xff51afd7ed558ccdull;
-      b ^= b >> 29;
-    }
-  }
-  template <class T>
-  void val(T v) {
-    bytes(&v, sizeof v);
-  }
-  std::string hex() const {
-    char buf[40];
-    snprintf(buf, sizeof buf, "%016llx%016llx", (unsigned long long)a, (unsigned long long)b);
-    return buf;
-  }
-};
-
-static void digest_metadata(Digest &d, const draco::Metadata &m) {
-  d.val<uint32_t>(static_cast<uint32_t>(m.entries().size()));
-  for (auto &kv : m.entries()) {
-    d.val<uint32_t>(static_cast<uint32_t>(kv.first.size()));
-    d.bytes(kv.first.data(), kv.first.size());
-    d.val<uint32_t>(static_cast<uint32_t>(kv.second.data().size()));
-    d.bytes(kv.second.data().data(), kv.second.data().size());
-  }
-  d.val<uint32_t>(static_cast<uint32_t>(m.sub_metadatas().size()));
-  for (auto &kv : m.sub_metadatas()) {
-    d.val<uint32_t>(static_cast<uint32_t>(kv.first.size()));
-    d.bytes(kv.first.data(), kv.first.size());
-    digest_metadata(d, *kv.second);
-  }
-}
-
-// ordered digest: attribute descriptors in decoded order, point count, faces in order, for every point in order the
-// value bytes of every attribute, metadata
-static std::string ordered_digest(const draco::PointCloud &pc, const draco::Mesh *mesh) {
-  Digest d;
-  d.val<int32_t>(pc.num_attributes());
-  for (int a = 0; a < pc.num_attributes(); ++a) {
-    const draco::PointAttribute *att = pc.attribute(a);
-    d.val<int32_t>(att->attribute_type());
-    d.val<int32_t>(att->data_type());
-    d.val<int32_t>(att->num_components());
-    d.val<int32_t>(att->normalized());
-    d.val<uint32_t>(att->unique_id());
-  }
-  d.val<uint32_t>(pc.num_points());
-  if (mesh) {
-    d.val<uint32_t>(mesh->num_faces());
-    for (uint32_t f = 0; f < mesh->num_faces(); ++f)
-      for (int k = 0; k < 3; ++k) d.val<uint32_t>(mesh->face(FaceIndex(f))[k].value());
-  }
-  std::vector<uint8_t> buf(2048);
-  for (uint32_t p = 0; p < pc.num_points(); ++p) {
-    for (int a = 0; a < pc.num_attributes(); ++a) {
-      const draco::PointAttribute *att = pc.attribute(a);
-      att->GetMappedValue(PointIndex(p), buf.data());
-      d.bytes(buf.data(), att->byte_stride());
-    }
-  }
-  if (const draco::GeometryMetadata *gm = pc.GetMetadata()) {
-    d.val<uint32_t>(static_cast<uint32_t>(gm->attribute_metadatas().size()));
-    for (auto &am : gm->attribute_metadatas()) {
-      d.val<uint32_t>(am->att_unique_id());
-      digest_metadata(d, *am);
-    }
-    digest_metadata(d, *gm);
-  } else {
-    d.val<uint32_t>(0xffffffffu);
-  }
-  return d.hex();
-}
-
 struct Golden {
   std::string digest;
   uint32_t points = 0, faces = 0;
